@@ -26,6 +26,16 @@ CHECKS = {
          "Exhaustive enumeration of all interleavings of bridge creation and deposits over three bridge ids (two created mid-history), two denoms, zero/non-zero amounts, short/long recipients, payloads and an unfunded sender; oracle: accepted => bridge exists, returned sequence = that bridge's own counter, exactly one event with the 8 requested attributes, balances moved by the amount, token pair = independent derivation and immutable; a freshly created bridge has nothing pre-recorded; queries = model in every state.",
          "Trusted: as C11 plus the independent L2-denom / bridge-address derivations. Bounded: 3 ids, depth 7 (quick) / 10 (thorough).",
          "DESIGN.md §6 C10"),
+ "C01": ("model_checking",
+         "explicit-state IDDFS over real handlers + balance ledger + per-bridge slices",
+         "Exhaustive enumeration of every history over create/deposit/propose/delete/advance/finalize/bank-send/role-update letters on three bridge ids (one never created), two denoms and two trees that differ only in the bridge id, with and without a registration fee; after every transition the ledger model equals every account's balances (and supply = sum of known accounts), the raw records and escrow of every non-addressed bridge are byte-identical, escrow decreases only through a successful finalize of the same bridge with a leaf of that bridge's tree, and rejected messages (incl. an under-funded escrow) leave the digest unchanged.",
+         "Trusted: as C11 plus the independent leaf/tree code. Bounded: depth 5 (quick) / 7 (thorough), amounts 0-2.",
+         "DESIGN.md §6 C01"),
+ "C03": ("model_checking",
+         "explicit-state search for oracle states + exhaustive perturbation matrix per state",
+         "Mode S enumerates every oracle state (no output / pending / final / deleted / re-proposed with another root / claimed / other bridge holds the same root) for tree sizes 1-5 (quick) / 1-9 (thorough); in every state and for every leaf position the whole perturbation family (each field, every proof element bit flips/replacements/swaps/truncations, proof length, output index, version bits, storage root, block hash, whole-preimage swaps, +2^64 amount, pairs of field representatives) is executed on the real FinalizeTokenWithdrawal handler and compared with an independent verifier (own SHA3): accepted => verifier-valid, pays the claimed amount to the claimed recipient and records the claim; rejected => digest unchanged.",
+         "Trusted: as C11 plus the independent SHA3/leaf/node/output-root reference pinned to Python hashlib vectors. Bounded: tree sizes and perturbation menus as listed in the evidence.",
+         "DESIGN.md §6 C03"),
 }
 NOT_YET = {}
 
